@@ -18,5 +18,6 @@ CONSTANTS
   CountLive = TRUE
   LabelLive = TRUE
   PayloadLive = TRUE
+  FileIdFollowsHeader = TRUE
 INVARIANT PrintLeaf
 CHECK_DEADLOCK FALSE
